@@ -105,7 +105,28 @@ fn run_case(dir: &Path, c: &Case) -> Result<Out, (String, String)> {
         Err(StartError::Exited(code, e)) => return fail("harness", format!("tftpd exited at start-up with {}: {}", code, e)),
         Err(StartError::Harness(e)) => return fail("harness", e),
     };
-    let res = converse(&mut srv, c, &file, &recv, &mut out);
+    let mut res = converse(&mut srv, c, &file, &recv, &mut out);
+    // the same name once more after the file has been replaced on disk: an acknowledged tsize is the size the file has NOW
+    let asked_tsize = c.opts.iter().any(|(n, v)| n.eq_ignore_ascii_case("tsize") && v.parse::<u64>().is_ok());
+    if res.is_ok() && !c.write && !c.big_burst && asked_tsize && expectations(c).unhonourable.is_none() && c.seed % 2 == 0 {
+        let fresh = content(c.seed ^ 0x7517e, (c.file_len + 1 + (c.seed as usize / 2) % 777) % 3000);
+        std::fs::write(send.join("f.bin"), &fresh).unwrap();
+        let cl = Client::new();
+        cl.send(&refcodec::encode_request_raw(false, b"f.bin", b"octet", &[(b"tsize".to_vec(), b"0".to_vec())]), srv.addr);
+        match recv_dec(&cl, Duration::from_secs(3)) {
+            Some((RDec::Ok(RPacket::Oack(list)), _, from)) => {
+                let ts = list.iter().find(|(o, _)| *o == ROpt::Tsize).map(|(_, v)| *v);
+                if ts != Some(fresh.len() as u64) {
+                    res = Err(("oack-tsize".into(), format!("second RRQ after the file was replaced on disk ({} -> {} bytes): OACK {:?}", c.file_len, fresh.len(), list)));
+                } else {
+                    out.classes.push("tsize-after-file-replaced");
+                }
+                // decline the transfer politely
+                cl.send(&refcodec::error(0, "size query only"), from);
+            }
+            other => res = Err(("no-oack".into(), format!("second RRQ with tsize=0 after the file was replaced: {:?}", other.map(|(d, _, _)| d)))),
+        }
+    }
     let tail = srv.stderr_tail();
     drop(srv);
     let _ = std::fs::remove_dir_all(&root);
@@ -639,7 +660,7 @@ fn boundary_sweep() -> Vec<Case> {
 }
 
 pub fn run(ctx: &Ctx) {
-    ctx.set_rule("deterministic: every option alone with every boundary value (0, 1, range edges, edges +-1, beyond 2^16 and 2^32) x RRQ/WRQ; all 65 ordered selections of the four options (valid values) x 3 name spellings x RRQ/WRQ x port mode; random: per case a fresh real tftpd (single/multi port) and one request built from a generated subset and order of {blksize,timeout,tsize,windowsize} (names in lower/upper/mixed case, unknown options interleaved, values at and around every boundary; one case in 12 repeats a recognised option with one unhonourable and one valid value in either order - the unhonourable one must never be acknowledged -, one WRQ in 24 carries a tsize beyond 2^64-1, which may be refused, ignored or echoed verbatim but not acknowledged as a different number) for an RRQ of a file of 0..3W+1 blocks or a WRQ. Oracle: OACK iff >=1 recognised option and none unhonourable; OACK lists only requested options with blksize/timeout/windowsize <= requested and in range, tsize = true file size (RRQ) / echo (WRQ); unhonourable values (timeout 0, windowsize 0 or >65535, blksize outside 8..65464) are never acknowledged (silence, ERROR or omission accepted); without OACK: DATA 1 / ACK 0 and 512-byte lock-step. The model client then measures the transfer: every non-final DATA has exactly the acknowledged blksize, every burst has exactly min(W, blocks left) consecutive blocks and nothing beyond, an upload is acknowledged after exactly W blocks and not before, content is byte-identical, and in timing cases (acknowledged timeout 1-2 s) the first retransmission comes no earlier than the acknowledged timeout. A second part downloads with windows larger than the default socket buffer (windowsize x blksize up to ~1.5 MB; the model client enlarges its receive buffer with SO_RCVBUFFORCE) so that 'exactly W blocks per burst' is also measured for large windows. Non-trivial = >=2 recognised options or a boundary value; distinct = distinct cases. Failures are re-run once in isolation before being reported.");
+    ctx.set_rule("deterministic: every option alone with every boundary value (0, 1, range edges, edges +-1, beyond 2^16 and 2^32) x RRQ/WRQ; all 65 ordered selections of the four options (valid values) x 3 name spellings x RRQ/WRQ x port mode; random: per case a fresh real tftpd (single/multi port) and one request built from a generated subset and order of {blksize,timeout,tsize,windowsize} (names in lower/upper/mixed case, unknown options interleaved, values at and around every boundary; one case in 12 repeats a recognised option with one unhonourable and one valid value in either order - the unhonourable one must never be acknowledged -, one WRQ in 24 carries a tsize beyond 2^64-1, which may be refused, ignored or echoed verbatim but not acknowledged as a different number) for an RRQ of a file of 0..3W+1 blocks or a WRQ. Oracle: OACK iff >=1 recognised option and none unhonourable; OACK lists only requested options with blksize/timeout/windowsize <= requested and in range, tsize = true file size (RRQ) / echo (WRQ); unhonourable values (timeout 0, windowsize 0 or >65535, blksize outside 8..65464) are never acknowledged (silence, ERROR or omission accepted); without OACK: DATA 1 / ACK 0 and 512-byte lock-step. The model client then measures the transfer (and, for half of the read requests that asked for tsize, replaces the file on disk afterwards and asks again: the acknowledged tsize must be the new size): every non-final DATA has exactly the acknowledged blksize, every burst has exactly min(W, blocks left) consecutive blocks and nothing beyond, an upload is acknowledged after exactly W blocks and not before, content is byte-identical, and in timing cases (acknowledged timeout 1-2 s) the first retransmission comes no earlier than the acknowledged timeout. A second part downloads with windows larger than the default socket buffer (windowsize x blksize up to ~1.5 MB; the model client enlarges its receive buffer with SO_RCVBUFFORCE) so that 'exactly W blocks per burst' is also measured for large windows. Non-trivial = >=2 recognised options or a boundary value; distinct = distinct cases. Failures are re-run once in isolation before being reported.");
     ctx.assume("burst size min(W, blocks) x (blksize+100) is kept below 100 KB so that loopback never drops datagrams; timeouts > 255 s are not generated; early-retransmission tolerance 130 ms");
     let dirs = DirPool::new(ctx, "c09");
     let sweep = boundary_sweep();
